@@ -258,6 +258,16 @@ func runHTTP(get func(string) *counters, segLen, bodyLen int) {
 		serverProbe(h, "tunnelled-body", "POST", "/r1/1", with(map[string]string{"X-HTTP-Method-Override": "PUT", "Content-Type": "multipart/mixed; boundary=b"}), []byte(mp), c)
 		serverProbe(h, "tunnelled-framing", "POST", "/r1/1", with(map[string]string{"X-HTTP-Method-Override": "PUT", "Content-Type": "multipart/mixed; boundary=b"}), []byte(s+mp[:len(mp)/2]), c)
 	})
+	// tunnelled: well-formed multipart framing with parts missing, duplicated or of another type, under every override verb
+	part := func(ct, body string) string { return "--b\r\nContent-Type: " + ct + "\r\n\r\n" + body + "\r\n" }
+	qp, jp, xp := part("application/x-www-form-urlencoded", "p=1"), part("application/json", "{}"), part("text/plain", "x")
+	for _, parts := range []string{"", qp, jp, xp, qp + qp, jp + jp, jp + qp, qp + xp, xp + qp + jp, qp + jp + jp, part("application/x-www-form-urlencoded", "")} {
+		for _, ov := range []string{"GET", "DELETE", "PUT", "POST"} {
+			for _, path := range []string{"/r1/1", "/r1", "/r1?action=a"} {
+				serverProbe(h, "tunnelled-parts", "POST", path, with(map[string]string{"X-HTTP-Method-Override": ov, "Content-Type": "multipart/mixed; boundary=b"}), []byte(parts+"--b--\r\n"), c)
+			}
+		}
+	}
 	for _, ct := range []string{"", "text/plain", "multipart/mixed", "multipart/mixed; boundary=", "application/json", ";;;", "multipart/mixed; boundary=b; boundary=c"} {
 		for _, ov := range []string{"GET", "PUT", "get", "BOGUS", " ", "DELETE"} {
 			serverProbe(h, "override-headers", "POST", "/r1/1", with(map[string]string{"X-HTTP-Method-Override": ov, "Content-Type": ct}), []byte("p=1"), c)
